@@ -149,6 +149,13 @@ void detect_cpu_features(cpu_features_type& cpu_features) {
         cpu_features.hybrid = (nperflevels > 1);
     }
 #endif
+#if ONETBB_VERIF_SIM
+    // verification hook: hardware transactions, tpause and hybrid-CPU detection are outside the
+    // simulator's control; take the portable fallback paths deterministically
+    cpu_features.rtm_enabled = false;
+    cpu_features.waitpkg_enabled = false;
+    cpu_features.hybrid = false;
+#endif
 }
 
 } // namespace r1
